@@ -159,3 +159,76 @@ func specLegal(resp, offer Parameters) bool {
 //@   props C14
 //@   ensures [v] result0 == n.params && accepted == n.accepted
 //@   assigns nothing
+
+func keyIs(key []byte, name string) bool {
+	return len(key) == len(name) && forall(0, len(key), func(k int) bool { return key[k] == name[k] })
+}
+
+// seen bits of Parameters.Parse (declared inside that function): client_max_window_bits = 1,
+// server_max_window_bits = 2, client_no_context_takeover = 4, server_no_context_takeover = 8.
+func specSeenBit(key []byte) byte {
+	switch {
+	case keyIs(key, clientMaxWindowBits):
+		return 1
+	case keyIs(key, serverMaxWindowBits):
+		return 2
+	case keyIs(key, clientNoContextTakeover):
+		return 4
+	case keyIs(key, serverNoContextTakeover):
+		return 8
+	}
+	return 0
+}
+
+// specParamValueOK: the value is well formed for the key (RFC 7692 §7.1).
+func specParamValueOK(key, val []byte) bool {
+	switch specSeenBit(key) {
+	case 1:
+		return len(val) == 0 || specBitsText(val)
+	case 2:
+		return specBitsText(val)
+	case 4, 8:
+		return len(val) == 0
+	}
+	return false
+}
+
+// The callback of Parameters.Parse handles one (key, value) pair.
+//@ func Parameters.Parse$1
+//@   props C14 C15
+//@   requires [state] err == nil && p != nil && seen < 16
+//@   ensures  [accept] ok == (specSeenBit(key) != 0 && old(seen)&specSeenBit(key) == 0 && specParamValueOK(key, val))
+//@   ensures  [err]    (err != nil) == !ok
+//@   ensures  [seen]   ok ==> seen == old(seen)|specSeenBit(key)
+//@   ensures  [cmwb]   ok && specSeenBit(key) == 1 ==> p.ClientMaxWindowBits == WindowBits(iteInt(len(val) == 0, 1, int(specBitsValue(val))))
+//@   ensures  [smwb]   ok && specSeenBit(key) == 2 ==> p.ServerMaxWindowBits == specBitsValue(val)
+//@   ensures  [cnct]   ok && specSeenBit(key) == 4 ==> p.ClientNoContextTakeover
+//@   ensures  [snct]   ok && specSeenBit(key) == 8 ==> p.ServerNoContextTakeover
+//@   assigns *p
+
+func validConfig(p Parameters) bool {
+	return validWindow(p.ServerMaxWindowBits) && validWindow(p.ClientMaxWindowBits)
+}
+
+func validOffer(p Parameters) bool {
+	return validWindow(p.ServerMaxWindowBits) && (p.ClientMaxWindowBits == 1 || validWindow(p.ClientMaxWindowBits))
+}
+
+// Parse as a whole (its loop is the dependency's Parameters.ForEach, which has no contract within
+// reach): assumed here, with the per-pair callback above proved.
+//@ func Parameters.Parse
+//@   trusted
+//@   ensures [wf] err == nil ==> validOffer(*p)
+//@   assigns *p
+
+//@ func Parameters.Option
+//@   trusted
+//@   assigns nothing
+
+//@ func Extension.Negotiate
+//@   props C14
+//@   requires [cfg] validConfig(n.Parameters)
+//@   ensures  [once]  old(n.accepted) ==> n.accepted && n.params == old(n.params)
+//@   ensures  [legal] n.accepted && !old(n.accepted) ==> err == nil && specLegal(n.Parameters, n.params)
+//@   ensures  [cfg]   n.Parameters == old(n.Parameters)
+//@   assigns n.accepted, n.params
